@@ -62,9 +62,8 @@ theorem Inv.step_same (h : Inv g root k P (qe :: R') (some (qe, i)) s) (hf : Fie
     simp only [Option.some.injEq, Prod.mk.injEq] at hc
     exact ⟨R', by rw [hc.1]⟩
 
-theorem reach_kid (hg : ReachGood g root) {p : List Nat} {sid : StructId} {t : StructId}
+theorem reach_kid (hgood : GoodDecl d) {p : List Nat} {sid : StructId} {t : StructId}
     (hr : Reach g root p sid) (hf : FieldAt g sid i d) (ha : actOf d = .enqueue t) : Reach g root (p ++ [i]) t := by
-  have hgood := hg p sid hr i d hf
   unfold GoodDecl at hgood
   rw [ha] at hgood
   cases hk : kindOf d <;> simp [hk, Action.Matches] at hgood
@@ -74,7 +73,7 @@ theorem reach_kid (hg : ReachGood g root) {p : List Nat} {sid : StructId} {t : S
 theorem qe_mem_hist : qe ∈ hist P (qe :: R') s := by simp [hist]
 
 /-- The entry being processed is visiting: the embedded struct of field `i` is queued. -/
-theorem Inv.step_enqueue_visit (hg : ReachGood g root) (h : Inv g root k P (qe :: R') (some (qe, i)) s)
+theorem Inv.step_enqueue_visit (hg : GoodDecl d) (h : Inv g root k P (qe :: R') (some (qe, i)) s)
     (hf : FieldAt g qe.sid i d) {t : StructId} (ha : actOf d = .enqueue t) (hv : qe.visit = true) :
     Inv g root k P (qe :: R') (some (qe, i + 1)) (applyAction qe i (.enqueue t) s) := by
   let enew : QE := { sid := t, index := qe.index ++ [i], visit := !s.seen.contains t }
